@@ -325,14 +325,18 @@ def column_exponents_c(M):
 def nonneg(ctx, ex):
     """All three branches of _estimate_error in the sign domain."""
     rep = ctx.rep
-    for N, nt, cplx in ((1, 2, False), (2, 2, False), (3, 2, False), (6, 2, False), (2, 0, False), (5, 3, False), (4, 3, False),
-                        (3, 2, True), (6, 2, True), (5, 3, True)):
-        def body(s, N=N, nt=nt, cplx=cplx):
+    # steps: positive (the finite-difference pipeline), of either sign (a limit taken from below), complex (a spiral path)
+    for N, nt, cplx, hkind in ((1, 2, False, 'pos'), (2, 2, False, 'pos'), (3, 2, False, 'pos'), (6, 2, False, 'pos'), (2, 0, False, 'pos'),
+                               (5, 3, False, 'pos'), (4, 3, False, 'pos'), (3, 2, True, 'pos'), (6, 2, True, 'pos'), (5, 3, True, 'pos'),
+                               (1, 2, False, 'signed'), (2, 2, False, 'signed'), (4, 2, False, 'signed'),
+                               (1, 2, True, 'complex'), (2, 2, True, 'complex'), (4, 2, True, 'complex')):
+        def body(s, N=N, nt=nt, cplx=cplx, hkind=hkind):
             I = s.interp
             R = I.get_global('extrapolation', 'Richardson')
             kind = 'c' if cplx else 'f'
             seq = Arr((N, 2), [DV({('x', c)}, kind) for i in range(N) for c in range(2)])
-            steps = Arr((N, 2), [DV({('x', c)}, 'f', 'pos') for i in range(N) for c in range(2)])
+            steps = Arr((N, 2), [DV({('x', c)}, 'c' if hkind == 'complex' else 'f', 'pos' if hkind == 'pos' else 'any')
+                                 for i in range(N) for c in range(2)])
             ratio = Poly.sym('r') * (Poly.const(Z8.ZETA) if cplx else 1)       # a complex ratio (spiral path) gives complex weights
             return R(step_ratio=ratio, step=1, order=1, num_terms=nt)(seq, steps)
         exr = explore(ctx.repo, body)
@@ -347,4 +351,6 @@ def nonneg(ctx, ex):
                     bad.append(repr(e))
         rep.check(not bad, 'R-NONNEG', 'extrapolation.Richardson._estimate_error', ex.relpath,
                   {'paths': len(exr.paths), 'not_provably_nonneg': bad[:3]}, 'abserr is real and >= 0',
-                  'len=%d/num_terms=%d%s' % (N, nt, '/complex ratio and data' if cplx else ''), key='nonneg')
+                  'len=%d/num_terms=%d%s%s' % (N, nt, '/complex ratio and data' if cplx else '',
+                                               '' if hkind == 'pos' else '/%s steps' % hkind),
+                  key='nonneg' if hkind == 'pos' else 'nonneg: one estimate, steps not positive')
